@@ -518,13 +518,26 @@ def run_check(pid: str, tier: str, seed: int) -> int:
     # 3. probe V1/V2: extracted Lean vs CPython (only if the generated modules compile)
     from vlib import diff as diffmod
     diff_rows = {}
-    if all(res[m].ok for m in gen_needed) and not not_generated:
+    if not not_generated:
         try:
             tucan = diffmod.load_tucan(REPO)
             for grp in spec.get("diff", []):
                 fn = {"pipeline": diffmod.pipeline_cases, "io": diffmod.io_cases, "parser": diffmod.parser_cases}[grp]
-                imports, prelude, cases = fn(REPO, tucan, tier, seed)
-                n, mism, per_fn, secs = diffmod.run_cases(grp, imports, prelude, cases, work)
+                try:
+                    imports, prelude, cases = fn(REPO, tucan, tier, seed)
+                except Exception as e:  # noqa: BLE001 - the real code raised on the probe's corpus inputs; the bounded parts of the properties concerned report that
+                    diff_rows[grp] = {"skipped": "the code under test raised while the probe inputs were prepared: " + "".join(traceback.format_exception_only(type(e), e))[:300]}
+                    continue
+                missing_fns = [f"{m.module}.{m.qualname}" for k, m in ex.metas.items()
+                               if m.error and "Generated." + extract_cfg.LEAN_MODULE_NAMES[k[0]] in imports]
+                if missing_fns:
+                    diff_rows[grp] = {"skipped": "functions of the modules this probe group imports could not be extracted for this tree: " + ", ".join(missing_fns[:4])}
+                    continue
+                try:
+                    n, mism, per_fn, secs = diffmod.run_cases(grp, imports, prelude, cases, work)
+                except diffmod.ProbeUnavailable as e:
+                    diff_rows[grp] = {"skipped": "an extracted module this probe group imports does not compile for this tree: " + str(e)[:300]}
+                    continue
                 diff_rows[grp] = {"cases": n, "mismatches": len(mism), "per_function": per_fn, "seconds": round(secs, 1)}
                 if mism:
                     status["broken"].append(f"probe V1 ({grp}): extracted Lean and CPython disagree on {mism[0]['function']} input {mism[0]['input']}: "
